@@ -60,6 +60,8 @@ func VerifC18Signals() {
 	var log []int
 	n := verifrt.Len(maxSvc)
 	outcomes := make([]int, n)
+	reuse := verifrt.Bool2()
+	buf := make([]Interface, 0, 2)
 	anyPanic, allNil := false, true
 	for i := 0; i < n; i++ {
 		outcomes[i] = verifrt.Choice(3)
@@ -69,7 +71,15 @@ func VerifC18Signals() {
 		if outcomes[i] != 0 {
 			allNil = false
 		}
-		h.Add(&c18Svc{idx: i, outcome: outcomes[i], log: &log})
+		svc := &c18Svc{idx: i, outcome: outcomes[i], log: &log}
+		if reuse {
+			// registered through a slice the caller keeps and overwrites for
+			// the next registration (Add must not retain its argument slice)
+			buf = append(buf[:0], svc)
+			h.Add(buf...)
+		} else {
+			h.Add(svc)
+		}
 	}
 	// signals: k non-shutdown ones, then the first shutdown signal
 	k := verifrt.Len(maxSig)
